@@ -397,7 +397,8 @@ impl C18 {
         // which schedule request
         let (kt_finish, kt_ratio): (Option<f64>, Option<f64>) = match (i % 4, kt_start == 0.0) {
             (_, true) => *rng.pick(&[(Some(1e-3), None), (None, Some(0.3)), (None, None), (Some(0.0), None)]),
-            (0, _) | (3, _) => (Some(kt_start * *rng.pick(&[0.01, 0.1, 0.5])), None),
+            // (a finishing temperature of exactly zero: the first loop at kt_start, all later ones at 0)
+            (0, _) | (3, _) => (Some(kt_start * *rng.pick(&[0.01, 0.1, 0.5, 0.0])), None),
             (1, _) => (None, Some(*rng.pick(&[0.0, 0.1, 0.3, 0.5]))),
             // both given: the ratio decides, whatever the finishing temperature is
             (2, _) if rng.chance(0.5) => (Some(kt_start * *rng.pick(&[0.5, 0.1, 2.0])), Some(*rng.pick(&[0.3, 0.5, 0.1]))),
